@@ -122,3 +122,10 @@ func AssertLockDiscipline()
 // DeliverLateAnswers delivers Diameter answers that were delayed beyond the
 // client's timeout (Config "diam.answerMayBeLate"); returns how many reached a handler.
 func DeliverLateAnswers() int
+
+// Parallel runs the functions as concurrent threads under every interleaving
+// at scheduling-point granularity (mutex, sync.Map, channel operations),
+// within the context-switch budget (//gosx:p.preempt=N), and returns when all
+// have finished. Scheduler(n) switches scheduling on for go statements.
+func Parallel(fs ...func())
+func Scheduler(budget int)
